@@ -68,9 +68,41 @@ PROPS = {
         'assumptions': [],
         'not_covered': [],
     },
-    'C03': {
-        'units': ['codec'],
+    'C04': {
+        'units': ['handshake'],
         'scope': [
+            ('handshake', r'^SocketType::compatible$', A, None),
+            ('handshake', r'^SocketType::as_str$|SocketType as TryFrom', A, None),
+            ('handshake', r'PeerIdentity as TryFrom<Bytes>|PeerIdentity as Default|^PeerIdentity::new$', A, None),
+            ('handshake', r'ZmqGreeting as Default', A, None),
+            ('handshake', r'^negotiate_version$', A, None),
+            ('handshake', r'^greet_exchange$|^ready_exchange$|^util::peer_connected$', A, None),
+            ('handshake', r'^ZmqCommand::ready$|^ZmqCommand::add_properties$|Bytes as From<PeerIdentity>', A, None),
+            ('handshake', r'^FramedIo::into_parts$', A, None),
+            ('handshake', r'^tmpl::lemma_(rfc_compatible|socktype|str_key)', A, None),
+        ],
+        'kani': {
+            'quick': [('compat_table', 'complete'), ('socktype_parse', 'bounded'), ('socktype_as_str', 'complete'), ('mech_parse', 'complete')],
+            'thorough': [('compat_table', 'complete'), ('socktype_parse', 'bounded'), ('socktype_as_str', 'complete'), ('mech_parse', 'complete')],
+        },
+        'assumptions': [
+            'FramedRead::next may return any item (the peer controls it) and appends it to a ghost log; FramedWrite::send = feed + flush, appends to a ghost log on Ok only',
+            'String is a well-behaved hash key and `str` borrows it by content; String::from(&str) copies the characters; HashMap::extend = union (later pairs win)',
+            'generated identities (UUIDv4) are modelled as ONE abstract value fresh_identity(): nothing is claimed about their uniqueness',
+            'the backend stand-in `dyn MultiPeerBackend` has exactly the three methods the handshake calls; its peer_connected REQUIRES handshake_completed(io, id)',
+        ],
+        'not_covered': [
+            'that registration actually happens on the Ok path (the effect of Arc<dyn MultiPeerBackend>::peer_connected is behind a shared reference; only its precondition is an obligation); at-most-once and same-connection follow from FramedIo being moved',
+            'uniqueness of generated identities; closing of a rejected connection (Rust ownership: FramedIo dropped on the ? path); reporting to caller / monitor (async closure in Socket::bind)',
+        ],
+    },
+    'C03': {
+        'units': ['codec', 'handshake'],
+        'scope': [
+            ('handshake', r'^SocketType::compatible$', S, None),
+            ('handshake', r'PeerIdentity as TryFrom<Bytes>', S, None),
+            ('handshake', r'^negotiate_version$', S, None),
+            ('handshake', r'^greet_exchange$|^ready_exchange$|^util::peer_connected$', S, None),
             ('codec', r'^ZmqCodec::decode$', S, None),
             ('codec', r'^ZmqCodec::decode$', {'post'}, r'^bm_reserved'),
             ('codec', r'^ZmqCodec::decode$', {'inv-entry', 'inv-end'}, r'bm_reserved|wf\(\)'),
@@ -79,10 +111,10 @@ PROPS = {
             ('codec', r'^ZmqMessage::push_back$|ZmqMessage as From<Bytes>', S, None),
         ],
         'kani': {
-            'quick': [('mech_parse', 'complete')],
-            'thorough': [('mech_parse', 'complete')],
+            'quick': [('mech_parse', 'complete'), ('compat_table', 'complete'), ('socktype_parse', 'bounded')],
+            'thorough': [('mech_parse', 'complete'), ('compat_table', 'complete'), ('socktype_parse', 'bounded')],
         },
         'assumptions': [],
-        'not_covered': [],
+        'not_covered': ['"other connections keep working"; panics inside spawned tasks; the PUB/XPUB subscription parser (message_received)'],
     },
 }
